@@ -309,14 +309,20 @@ class SumProduct(MapperContract):
 
 
 def units():
+    from . import cfinder
     return [FunctionUnit(RecContract()), FunctionUnit(CommutAssoc()),
-            FunctionUnit(SumProduct("map_sum", "Sum")), FunctionUnit(SumProduct("map_product", "Product"))]
+            FunctionUnit(SumProduct("map_sum", "Sum")), FunctionUnit(SumProduct("map_product", "Product"))] \
+        + cfinder.units()
 
 
 LEVEL = "proof"
 BOUNDED = {"quick": {"timeout_s": 90}, "thorough": {"timeout_s": 900}}
 TRUSTED_BASE = [
-    "finder postcondition (ASSUMED, bounded monitor only): _ConstantFindingMapper marks a subexpression constant only if it mentions no free variable (relies on pymbolic CombineMapper calling combine once per non-leaf node; checked by the bounded monitor only)",
+    "A-COMBINE (pymbolic.mapper.CombineMapper): for a composite node the inherited map_* calls self.rec on every direct subexpression "
+    "and then self.combine on exactly those results; rec / __call__ dispatch to the node's map_* method. Under it the finder's own six "
+    "methods are proved to satisfy the method contract MC (contracts/cfinder.py) and __call__ to return a sound table - the finder "
+    "postcondition `is_constant[e] => e mentions no free variable` that the collapsing mapper's proof uses; the step from MC of the own "
+    "methods to MC of the inherited ones is a structural induction that is argued, not machine-checked",
     "A-ID: IdentityMapper.rec dispatches to map_*; inherited map_* rebuild the node from recursively mapped children, so they preserve the denotation when the children do",
     "Sum / Product denote the commutative-associative combination of their operands (uninterpreted AC operator: nothing else about + or * is used)",
     "precondition of collapse_constants: new_var_func returns a variable that is used nowhere else, distinct each call",
